@@ -522,7 +522,16 @@ impl Model {
             Ok(s) => s,
             Err(_) => return vec![alt(Expect::ErrAny, Next::Resync(vec!["/".into()])), alt(Expect::OkAny, Next::Resync(vec!["/".into()]))],
         };
-        // a link with follow whose chain passes through links or loops is out of the simple domain
+        // a symbolic expression that may be used (no octal given for at least one kind) must be
+        // well formed: malformed first clause => error and nothing changes (as stated); a later
+        // malformed clause => unspecified
+        if !spec.sym.is_empty() && (spec.dirs == 0 || spec.files == 0) && sym_mode(0, true, &spec.sym).is_err() {
+            let first = spec.sym.split(',').next().unwrap_or("");
+            if sym_mode(0, true, first).is_err() {
+                return same(Expect::ErrAny);
+            }
+            return vec![alt(Expect::ErrAny, Next::Resync(vec!["/".into()])), alt(Expect::OkAny, Next::Resync(vec!["/".into()]))];
+        }
         let mut t = self.t.clone();
         let mut malformed = false;
         for e in &sel {
